@@ -20,7 +20,7 @@ BOUNDS = {
     "quick": "programs = CP models over 3 variables (5 for sums) with domains drawn from {0..2,1..3,-1..1,0..1,{2},0..3}: every linear shape of "
              "the operator grammar (20 shapes x ==/!=) x 6 VERIF_SEED-sampled instantiations, all_different, sum_eq/le/ge with 0..5 terms (repeats "
              "allowed), circuit on 0..n-1 domains for n=1..5 and on arbitrary successor domains, no_overlap, cumulative incl. two instances with "
-             ">10 simultaneously active start literals, and 150 two-constraint programs",
+             ">10 simultaneously active start literals, 150 two-constraint programs and global+simple pairs in both orders",
     "thorough": "40 instantiations per linear shape, 10x the global-constraint samples, 3000 two-constraint programs",
 }
 OUTSIDE = "programs outside the sampled instantiations (the grammar is covered shape-by-shape, instantiations are VERIF_SEED-sampled); larger domains"
@@ -131,7 +131,7 @@ def h_encode(s, programs):
 
 def items(tier, rng):
     q = tier == "quick"
-    progs = P.linear_programs(rng, 6 if q else 40) + P.global_programs(rng, 12 if q else 120, big=not q) + P.pair_programs(rng, 150 if q else 3000)
+    progs = P.linear_programs(rng, 6 if q else 40) + P.global_programs(rng, 12 if q else 120, big=not q) + P.pair_programs(rng, 150 if q else 3000) + P.mixed_pair_programs(rng, 40 if q else 400)
     out = []
     for ch in P.chunks(progs, 12):
         out.append({"name": "encode", "harness": "h_encode", "params": {"programs": ch}})
